@@ -33,13 +33,13 @@ func (e Effect) String() string {
 type ModelFn func(in *Interp, site ssa.CallInstruction, name string, args []Val) (result Val, handled bool)
 
 type Interp struct {
-	c    *Ctx
-	ch   *Chooser
-	sym  SymSpec
-	Trace []Effect
-	steps int
-	depth int
-	active map[*ssa.Function]int
+	c        *Ctx
+	ch       *Chooser
+	sym      SymSpec
+	Trace    []Effect
+	steps    int
+	depth    int
+	active   map[*ssa.Function]int
 	ptrCells map[string]*Cell
 	globals  map[*ssa.Global]*Cell
 
@@ -761,6 +761,20 @@ func (in *Interp) equal(v, w Val) bool {
 	case Slice, LazySlice, Closure, FuncV, MapV:
 		if b, ok := w.(Konst); ok && b.V == nil {
 			return in.equal(w, v)
+		}
+	case *ErrObj:
+		// an error made during this run: equal only to itself, never to a
+		// sentinel of a package
+		switch b := w.(type) {
+		case *ErrObj:
+			return a == b
+		case Opaque:
+			return false
+		}
+	}
+	if _, isErr := w.(*ErrObj); isErr {
+		if _, isOp := v.(Opaque); isOp {
+			return false
 		}
 	}
 	in.undecided("comparison of %T (%s) with %T (%s)", v, keyOf(v), w, keyOf(w))
